@@ -16,7 +16,7 @@ func init() {
 	}
 	harness.Specs["C02"] = &harness.PropSpec{
 		ID: "C02", Test: "TestC02", Kind: "iso", Level: "exploration", Race: true,
-		Quick: 2400, Thorough: 150000,
+		Quick: 2400, Thorough: 20000,
 		Rule: "generated scenarios under the race detector: a prefix history, then rounds of one writer transaction (full op grammar, optional Flush, commit | " +
 			"rollback | close) with up to 4 read transactions begun before it or between its operations; readers are lazy (pages first touched at generated later " +
 			"stages: after the writer's ops, after its Flush, while its Commit is parked by the disk gate at a generated disk call - data write k, data sync, header " +
